@@ -19,10 +19,10 @@ Inductive site_class : Type :=
 (* key: package, enclosing function, argument text *)
 Definition classification : list (string * string * string * site_class) := [
   (* FS = multi-character regex *)
-  ("interp", "setSpecial", "compiler.AddRegexFlags(p.fieldSep)", Matching);
+  ("interp", "setSpecial", "compiler.AddRegexFlags(fieldSep)", Matching);
   (* RS: one byte / one multi-byte character (quoted), or a regex *)
   ("interp", "setSpecial", "sep", Matching);
-  ("interp", "setSpecial", "compiler.AddRegexFlags(p.recordSep)", Matching);
+  ("interp", "setSpecial", "compiler.AddRegexFlags(recordSep)", Matching);
   (* dynamic regexes: match, split, sub, gsub, ~ with a string operand; regex cache *)
   ("interp", "compileRegex", "compiler.AddRegexFlags(regex)", Matching);
   (* regex literals, compiled once per program *)
